@@ -20,14 +20,17 @@ const HEADER: &str = "From RV Require Import Corr.C17.\nLocal Open Scope string_
 
 /// visible keyspace incl. the exact stored values (raw Value clones of every visible key)
 #[derive(Clone, PartialEq, Debug)]
-struct Vis { snap: Snapshot, raw: Vec<(String, Value)> }
+struct Vis { snap: Snapshot, raw: Vec<(String, Value)>, stale: Vec<String> }
 
+/// read WITHOUT purging (EXISTS, PTTL, DBSIZE, KEYS * and clones of the stored values): a key past its deadline
+/// counts as absent whether or not it has been evicted, and looking does not evict it
 fn visible(im: &mut Impl) -> Result<Vis, String> {
-    let snap = snapshot(im, &KEYS)?;
-    let mut raw: Vec<(String, Value)> = snap.iter().filter_map(|(k, _, _)| im.ex.get_data().get(k).map(|v| (k.clone(), v.clone()))).collect();
+    let (snap, stale) = snapshot_nopurge(im, &KEYS)?;
+    let mut raw: Vec<(String, Value)> = snap.iter().filter(|e| e.2 >= -1).filter_map(|(k, _, _)| im.ex.get_data().get(k).map(|v| (k.clone(), v.clone()))).collect();
     raw.sort_by(|a, b| a.0.cmp(&b.0));
-    Ok(Vis { snap, raw })
+    Ok(Vis { snap, raw, stale })
 }
+fn same_visible(a: &Vis, b: &Vis) -> bool { a.snap == b.snap && a.raw == b.raw }
 
 fn viol(out: &mut Out, seen: &mut std::collections::BTreeMap<String, u64>, class: &str, i: u64, what: &str, d: serde_json::Value) {
     let n = seen.entry(class.to_string()).or_insert(0);
@@ -131,7 +134,7 @@ fn main() {
     let range: Vec<u64> = match args.only { Some(i) => vec![i], None => (0..args.n).collect() };
     for i in range {
         let mut rng = case_rng(args.seed, i);
-        let mut g = Gen { rng: &mut rng, now: 0, deadlines: vec![], lens: vec![], hot: true, state: vec![], pending: vec![] };
+        let mut g = Gen { rng: &mut rng, now: 0, deadlines: vec![], lens: vec![], hot: true, state: vec![], pending: vec![], stale: vec![] };
         let pre = setup(&mut g);
         // ------------------------------------------------ part A: model commands, for Coq too
         let mut im = Impl::new();
@@ -143,14 +146,20 @@ fn main() {
         let mut step = 0;
         let mut dead = false;
         while step < pre.len() + na && !dead {
-            let tick = step >= pre.len() && g.chance(0.12);
+            let tick = step >= pre.len() && g.pending.is_empty() && g.chance(0.18);
             if tick {
                 let t = g.now + g.delta();
-                if let Err(p) = im.set_time(t) { viol(&mut out, &mut vseen, "panic", i, "the implementation panicked when the clock was set", json!({"clock": t, "panic": p, "steps_before": trace})); break; }
+                // half of the clock moves skip the eviction sweep: expired keys stay stored until something purges them
+                let lazy = g.chance(0.5);
+                if let Err(p) = if lazy { im.set_time_lazy(t) } else { im.set_time(t) } { viol(&mut out, &mut vseen, "panic", i, "the implementation panicked when the clock was set", json!({"clock": t, "panic": p, "steps_before": trace})); break; }
                 g.now = t;
-                let snap = match snapshot(&mut im, &KEYS) { Ok(s) => s, Err(p) => { viol(&mut out, &mut vseen, "panic", i, "the implementation panicked while the keyspace was read", json!({"panic": p, "steps_before": trace})); break; } };
+                let vis = match visible(&mut im) { Ok(s) => s, Err(p) => { viol(&mut out, &mut vseen, "panic", i, "the implementation panicked while the keyspace was read", json!({"panic": p, "steps_before": trace})); break; } };
+                let snap = vis.snap;
                 terms.push(format!("ST {}%N {}", t, if snap == last { "None".to_string() } else { format!("(Some {})", snap_coq(&snap)) }));
-                trace.push(json!({"set_time": t}));
+                trace.push(json!({"clock": t, "eviction_sweep": !lazy, "lazily_expired_now": vis.stale}));
+                g.stale = vis.stale;
+                g.state = snap.clone();
+                g.deadlines = snap.iter().filter(|e| e.2 >= 0).map(|e| g.now + e.2 as u64).collect();
                 last = snap;
             } else {
                 let c = if step < pre.len() { pre[step].clone() } else { g.cmd() };
@@ -163,6 +172,7 @@ fn main() {
                 out.count(&format!("A:cmd:{}", c.name()));
                 terms.push(format!("SC {} {} {}", c.to_coq(), canon_reply_coq(&c, &r), if after.snap == last { "None".to_string() } else { format!("(Some {})", snap_coq(&after.snap)) }));
                 trace.push(json!({"command": c.to_coq(), "reply": format!("{:?}", r)}));
+                g.stale = after.stale.clone();
                 last = after.snap;
                 g.deadlines = last.iter().filter(|e| e.2 >= 0).map(|e| g.now + e.2 as u64).collect();
                 g.state = last.clone();
@@ -174,12 +184,15 @@ fn main() {
         // ------------------------------------------------ part B: the full command set, implementation only
         let mut imb = Impl::new();
         let mut traceb: Vec<serde_json::Value> = Vec::new();
-        g.now = 0; g.pending.clear(); g.state = vec![];
+        g.now = 0; g.pending.clear(); g.state = vec![]; g.stale = vec![];
         for c in &pre { let _ = imb.exec(&c.to_rust()); traceb.push(json!({"setup": c.to_coq()})); }
         let nb = g.rng.gen_range(25..=40);
         for _ in 0..nb {
             if imb.dead { break; }
-            if g.chance(0.08) { let t = g.now + g.delta(); if let Err(p) = imb.set_time(t) { viol(&mut out, &mut vseen, "panic", i, "the implementation panicked when the clock was set", json!({"clock": t, "panic": p, "steps_before": traceb})); break; } g.now = t; traceb.push(json!({"set_time": t})); continue; }
+            if g.pending.is_empty() && g.chance(0.15) { let t = g.now + g.delta(); let lazy = g.chance(0.6);
+                if let Err(p) = if lazy { imb.set_time_lazy(t) } else { imb.set_time(t) } { viol(&mut out, &mut vseen, "panic", i, "the implementation panicked when the clock was set", json!({"clock": t, "panic": p, "steps_before": traceb})); break; } g.now = t;
+                if let Ok(v) = visible(&mut imb) { g.deadlines = v.snap.iter().filter(|e| e.2 >= 0).map(|e| g.now + e.2 as u64).collect(); g.stale = v.stale.clone(); g.state = v.snap.clone(); traceb.push(json!({"clock": t, "eviction_sweep": !lazy, "lazily_expired_now": v.stale})); }
+                continue; }
             let (text, c) = full_cmd(&mut g);
             let before = match visible(&mut imb) { Ok(v) => v, Err(p) => { viol(&mut out, &mut vseen, "panic", i, "the implementation panicked while the keyspace was read", json!({"panic": p, "steps_before": traceb})); break; } };
             let name = format!("{:?}", c).split(|ch: char| !ch.is_alphanumeric()).next().unwrap_or("?").to_string();
@@ -191,7 +204,7 @@ fn main() {
             out.count(&format!("B:cmd:{}", name));
             traceb.push(json!({"command": text, "reply": format!("{:?}", r)}));
             let snap = &after.snap;
-            g.state = snap.clone();
+            g.state = snap.clone(); g.stale = after.stale.clone();
             g.deadlines = snap.iter().filter(|e| e.2 >= 0).map(|e| g.now + e.2 as u64).collect();
         }
         out.case(i, term.clone(), nerr >= 3 && kinds.len() >= 2 && nro >= 3, &format!("{}|{:?}", term, traceb));
@@ -216,9 +229,9 @@ fn check_step(out: &mut Out, vseen: &mut std::collections::BTreeMap<String, u64>
     if ro && !before.snap.is_empty() { *nro += 1; }
     if !(err || ro) { return; }
     out.impl_checks += 1;
-    if before != after {
+    if !same_visible(before, after) {
         let d = json!({"command": text, "reply": format!("{:?}", r), "is_read_only": ro, "keyspace_before": snap_json(&before.snap), "keyspace_after": snap_json(&after.snap),
-                       "raw_before": format!("{:?}", before.raw), "raw_after": format!("{:?}", after.raw), "steps_before": trace});
+                       "lazily_expired_before": before.stale, "lazily_expired_after": after.stale, "raw_before": format!("{:?}", before.raw), "raw_after": format!("{:?}", after.raw), "steps_before": trace});
         // a script that fails after one of its own calls has already written keeps that write in Redis too:
         // not a C17 failure of the executor (scripts are not transactions); counted separately
         let script_partial = matches!(c, Command::Eval { .. } | Command::EvalSha { .. }) && err && !ro;
